@@ -511,7 +511,17 @@ func runHistory(r *rig, tag string, c *Case) {
 			continue
 		}
 		if k.Accepted {
-			time.Sleep(time.Millisecond)
+			// the client's reader may still be working through what was in flight (an evicted
+			// reader that catches up has tens of MB to drain before it sees the end of the stream)
+			for w := 0; w < 200; w++ {
+				rmu.Lock()
+				seen := closedSeen[i]
+				rmu.Unlock()
+				if seen || k.End == "" {
+					break
+				}
+				time.Sleep(10 * time.Millisecond)
+			}
 			rmu.Lock()
 			k.SockOpen = !closedSeen[i]
 			rmu.Unlock()
